@@ -20,8 +20,9 @@ Actors and their program counters:
   transformer — hook `flow.action`) → `inTransformer` (hook `ebg.transformer.enter`, before the compare-and-swap)
   → either `notifying` (it won the CAS — hook `ebg.transformer.won`; it loops over ALL channels: `ch <- true` to
   every other one — hook `ebg.transformer.before_notify` — then `close(ch)`; Go's map iteration order is
-  unspecified, so the loop index is represented by the set of channels already closed and the scheduler picks the
-  next one) → `continued` (the transformer returned the original action: the branch continues, exactly here)
+  unspecified, so the loop index is represented by the set of channels already closed plus the channel the loop is
+  at (`target`): the scheduler picks the next channel among the unclosed ones WHETHER OR NOT its flow can receive,
+  and the winner is then committed to it) → `continued` (the transformer returned the original action: the branch continues, exactly here)
   or `completed` (it lost the CAS, got `completeAction`, the flow ends);
   `selecting` → `terminated` when it reads `true` from its termination channel.
 * catch node `j`: inbox of capacity `inboxCap` (`len(incoming)*2+1`) holding `reg` (the flow's `nextActionMessage`
@@ -82,6 +83,8 @@ structure St where
   /-- flow `i` evaluated `f.termination()` after the map had been replaced: its select waits on a nil channel -/
   nilChan : Nat → Bool
   mapGone : Bool
+  /-- the channel the winner's loop is at (`none`: between two iterations) -/
+  target : Option Nat
   npc : Nat → NodePc
   active : Nat → Bool
   /-- number of values buffered in the reply channel parked at node `j` -/
@@ -94,7 +97,7 @@ structure St where
 
 def init (c : Cfg) : St :=
   { pc := fun _ => .starting, first := none, closed := fun _ => false, termBuf := fun _ => 0,
-    nilChan := fun _ => false, mapGone := false, npc := fun _ => .idle, active := fun _ => false,
+    nilChan := fun _ => false, mapGone := false, target := none, npc := fun _ => .idle, active := fun _ => false,
     replyBuf := fun _ => 0, inbox := fun _ => [], dels := [], wg := c.k }
 
 /-- scheduler choices -/
@@ -105,6 +108,7 @@ inductive Lbl where
   | takeAction (j : Nat)         -- flow j takes the buffered action out of its reply channel (replyCap ≥ 1)
   | enterTransformer (i : Nat)   -- flow i calls the action transformer
   | cas (i : Nat)                -- compare-and-swap
+  | pick (i t : Nat)             -- winner i: the map iteration yields channel t next
   | notify (i t : Nat)           -- winner i: `ch_t <- true; close(ch_t)` for another alternative t
   | closeOwn (i : Nat)           -- winner i: `close(ch_i)`
   | finish (i : Nat)             -- winner i: loop done, map variable reassigned, original action returned
@@ -120,7 +124,7 @@ def Lbl.isInput : Lbl → Bool
 def allClosed (c : Cfg) (s : St) : Bool := (List.range c.k).all (fun t => s.closed t)
 
 /-- is the label enabled -/
-def guard (c : Cfg) (s : St) : Lbl → Bool
+def enabled (c : Cfg) (s : St) : Lbl → Bool
   | .enterSelect i => decide (i < c.k) && decide (s.pc i = .starting) && decide ((s.inbox i).length < c.inboxCap)
   | .node j => decide (j < c.k) && decide (s.npc j = .idle) && !(s.inbox j).isEmpty
   | .send j =>
@@ -129,11 +133,14 @@ def guard (c : Cfg) (s : St) : Lbl → Bool
   | .takeAction j => decide (j < c.k) && decide (s.pc j = .selecting) && decide (0 < s.replyBuf j)
   | .enterTransformer i => decide (i < c.k) && decide (s.pc i = .gotAction)
   | .cas i => decide (i < c.k) && decide (s.pc i = .inTransformer)
+  | .pick i t =>
+    decide (i < c.k) && decide (t < c.k) && decide (s.pc i = .notifying) && decide (s.target = none) && !s.closed t
   | .notify i t =>
-    decide (i < c.k) && decide (t < c.k) && decide (t ≠ i) && decide (s.pc i = .notifying) && !s.closed t &&
+    decide (i < c.k) && decide (t < c.k) && decide (t ≠ i) && decide (s.pc i = .notifying) &&
+      decide (s.target = some t) &&
       (if c.termCap = 0 then decide (s.pc t = .selecting) && !s.nilChan t else decide (s.termBuf t < c.termCap))
-  | .closeOwn i => decide (i < c.k) && decide (s.pc i = .notifying) && !s.closed i
-  | .finish i => decide (i < c.k) && decide (s.pc i = .notifying) && allClosed c s
+  | .closeOwn i => decide (i < c.k) && decide (s.pc i = .notifying) && decide (s.target = some i)
+  | .finish i => decide (i < c.k) && decide (s.pc i = .notifying) && decide (s.target = none) && allClosed c s
   | .recvTerm t => decide (t < c.k) && decide (s.pc t = .selecting) && !s.nilChan t && decide (0 < s.termBuf t)
   | .deliver a => decide (a < c.k)
   | .forward d =>
@@ -142,7 +149,7 @@ def guard (c : Cfg) (s : St) : Lbl → Bool
     | some (_, n) => decide (n < c.k) && decide ((s.inbox n).length < c.inboxCap)
 
 /-- effect of an enabled label -/
-def apply (c : Cfg) (s : St) : Lbl → St
+def fire (c : Cfg) (s : St) : Lbl → St
   | .enterSelect i =>
     { s with pc := upd s.pc i .selecting, nilChan := upd s.nilChan i s.mapGone,
              inbox := upd s.inbox i (s.inbox i ++ [.reg]) }
@@ -166,11 +173,12 @@ def apply (c : Cfg) (s : St) : Lbl → St
     match s.first with
     | none => { s with first := some i, pc := upd s.pc i .notifying }
     | some _ => { s with pc := upd s.pc i .completed, wg := s.wg - 1 }
+  | .pick _ t => { s with target := some t }
   | .notify _ t =>
     if c.termCap = 0 then
-      { s with pc := upd s.pc t .terminated, closed := upd s.closed t true, wg := s.wg - 1 }
-    else { s with termBuf := upd s.termBuf t (s.termBuf t + 1), closed := upd s.closed t true }
-  | .closeOwn i => { s with closed := upd s.closed i true }
+      { s with pc := upd s.pc t .terminated, closed := upd s.closed t true, wg := s.wg - 1, target := none }
+    else { s with termBuf := upd s.termBuf t (s.termBuf t + 1), closed := upd s.closed t true, target := none }
+  | .closeOwn i => { s with closed := upd s.closed i true, target := none }
   | .finish i => { s with pc := upd s.pc i .continued, mapGone := s.mapGone || c.mapReplaced }
   | .recvTerm t =>
     { s with pc := upd s.pc t .terminated, termBuf := upd s.termBuf t (s.termBuf t - 1), wg := s.wg - 1 }
@@ -182,7 +190,7 @@ def apply (c : Cfg) (s : St) : Lbl → St
       { s with inbox := upd s.inbox n (s.inbox n ++ [.ev a]),
                dels := if n + 1 = c.k then s.dels.eraseIdx d else s.dels.set d (a, n + 1) }
 
-def step (c : Cfg) (l : Lbl) (s : St) : Option St := if guard c s l then some (apply c s l) else none
+def step (c : Cfg) (l : Lbl) (s : St) : Option St := if enabled c s l then some (fire c s l) else none
 
 /-- every list of labels is a schedule: a label that is not enabled is skipped -/
 def exec (c : Cfg) (s : St) (sch : List Lbl) : St := sch.foldl (fun s l => (step c l s).getD s) s
@@ -212,7 +220,7 @@ def Pc.observed : Pc → Bool
 def liveCount (c : Cfg) (s : St) : Nat := (List.range c.k).countP (fun i => !(s.pc i).gone)
 
 /-- nothing but an input can happen -/
-def terminal (c : Cfg) (s : St) : Prop := ∀ l : Lbl, l.isInput = false → guard c s l = false
+def terminal (c : Cfg) (s : St) : Prop := ∀ l : Lbl, l.isInput = false → enabled c s l = false
 
 /-- the outcome C06 asks for: one branch continued, every other flow withdrawn, the wait group down to the winner -/
 def settled (c : Cfg) (s : St) : Prop :=
@@ -222,10 +230,10 @@ def settled (c : Cfg) (s : St) : Prop :=
 def labels (c : Cfg) (s : St) : List Lbl :=
   (List.range c.k).flatMap (fun i =>
     [.enterSelect i, .node i, .send i, .takeAction i, .enterTransformer i, .cas i, .closeOwn i, .finish i, .recvTerm i]
-      ++ (List.range c.k).map (fun t => .notify i t))
+      ++ (List.range c.k).flatMap (fun t => [.pick i t, .notify i t]))
   ++ (List.range s.dels.length).map .forward
 
-def enabledLabels (c : Cfg) (s : St) : List Lbl := (labels c s).filter (guard c s)
+def enabledLabels (c : Cfg) (s : St) : List Lbl := (labels c s).filter (enabled c s)
 
 /-- run internal steps (first enabled candidate first) until none is enabled or the fuel runs out -/
 def quiesce (c : Cfg) : Nat → St → St
@@ -233,7 +241,7 @@ def quiesce (c : Cfg) : Nat → St → St
   | n + 1, s =>
     match enabledLabels c s with
     | [] => s
-    | l :: _ => quiesce c n (apply c s l)
+    | l :: _ => quiesce c n (fire c s l)
 
 /-- canonical key of a state (for the driver's reachability search) -/
 def Pc.code : Pc → Nat
@@ -249,7 +257,8 @@ def key (c : Cfg) (s : St) : List Nat :=
     [(s.pc i).code, (if s.closed i then 1 else 0), s.termBuf i, (if s.nilChan i then 1 else 0),
      (if s.npc i = .sending then 1 else 0), (if s.active i then 1 else 0), s.replyBuf i, 99]
     ++ (s.inbox i).map Msg.code ++ [98])
-  ++ [match s.first with | none => 0 | some w => w + 1, (if s.mapGone then 1 else 0), s.wg, 97]
+  ++ [match s.first with | none => 0 | some w => w + 1, (if s.mapGone then 1 else 0), s.wg,
+      match s.target with | none => 0 | some t => t + 1, 97]
   ++ s.dels.flatMap (fun d => [d.1, d.2])
 
 /-! ## the witness schedules (replayed on the real engine by the harness, family `c06`) -/
@@ -262,30 +271,31 @@ def setupSched (k : Nat) : List Lbl :=
 def deliverSched (k a : Nat) : List Lbl := .deliver a :: (List.range k).map (fun _ => .forward 0)
 
 /-- D5 (`ebgTermCap = 0`, reply channels unbuffered): alternative `w` wins the CAS and, before it offers `true`
-(hook `ebg.transformer.before_notify`), alternative `l`'s own event is delivered; `l` takes its action, loses the CAS
+(hook `ebg.transformer.before_notify`: its loop is at channel `l`), alternative `l`'s own event is delivered; `l` takes its action, loses the CAS
 and goes away with `completeAction`; the winner's `ch_l <- true` can never be received. `k = 2`, `w = 0`, `l = 1`. -/
 def deadlockSched : List Lbl :=
-  setupSched 2 ++ deliverSched 2 0 ++ [.node 0, .send 0, .enterTransformer 0, .cas 0, .node 1]
-    ++ deliverSched 2 1 ++ [.node 0, .node 1, .send 1, .enterTransformer 1, .cas 1, .closeOwn 0]
+  setupSched 2 ++ deliverSched 2 0 ++ [.node 0, .send 0, .enterTransformer 0, .cas 0, .node 1, .pick 0 1]
+    ++ deliverSched 2 1 ++ [.node 0, .node 1, .send 1, .enterTransformer 1, .cas 1]
 
 /-- the same with buffered reply channels (`replyCap ≥ 1`) -/
 def deadlockSchedBuffered : List Lbl :=
-  setupSched 2 ++ deliverSched 2 0 ++ [.node 0, .send 0, .takeAction 0, .enterTransformer 0, .cas 0, .node 1]
-    ++ deliverSched 2 1 ++ [.node 0, .node 1, .send 1, .takeAction 1, .enterTransformer 1, .cas 1, .closeOwn 0]
+  setupSched 2 ++ deliverSched 2 0 ++ [.node 0, .send 0, .takeAction 0, .enterTransformer 0, .cas 0, .node 1, .pick 0 1]
+    ++ deliverSched 2 1 ++ [.node 0, .node 1, .send 1, .takeAction 1, .enterTransformer 1, .cas 1]
 
 /-- buffered termination channels but the map variable still reassigned: flow 1 evaluates its select only after the
 winner has finished; it waits on a nil channel and is never withdrawn. -/
 def lateSelectSched (replyBuffered : Bool) : List Lbl :=
   [.enterSelect 0, .node 0] ++ deliverSched 2 0 ++ [.node 0, .send 0]
     ++ (if replyBuffered then [.takeAction 0] else [])
-    ++ [.enterTransformer 0, .cas 0, .notify 0 1, .closeOwn 0, .finish 0, .enterSelect 1, .node 1, .node 1]
+    ++ [.enterTransformer 0, .cas 0, .pick 0 1, .notify 0 1, .pick 0 0, .closeOwn 0, .finish 0, .enterSelect 1, .node 1,
+        .node 1]
 
 /-- D21 (`replyCap = 0`): alternative 0 wins while 1 is withdrawn through its termination channel; the late event of
 alternative 1 makes node 1 send on the dead flow's reply channel forever; `inboxCap` further deliveries fill its
 inbox and the next one blocks its caller. (`termBuffered` selects the variant for `ebgTermCap ≥ 1`.) -/
 def lateBlockSched (termBuffered : Bool) (inboxCap : Nat) : List Lbl :=
-  setupSched 2 ++ deliverSched 2 0 ++ [.node 0, .send 0, .enterTransformer 0, .cas 0, .node 1, .notify 0 1]
-    ++ (if termBuffered then [.recvTerm 1] else []) ++ [.closeOwn 0, .finish 0]
+  setupSched 2 ++ deliverSched 2 0 ++ [.node 0, .send 0, .enterTransformer 0, .cas 0, .node 1, .pick 0 1, .notify 0 1]
+    ++ (if termBuffered then [.recvTerm 1] else []) ++ [.pick 0 0, .closeOwn 0, .finish 0]
     ++ deliverSched 2 1 ++ [.node 0, .node 1]
     ++ (List.range inboxCap).flatMap (fun _ => deliverSched 2 1 ++ [.node 0])
     ++ [.deliver 1, .forward 0, .node 0]
